@@ -13,25 +13,20 @@ def in_pileup(cov, pos, op):
 
 def support(cov, mut):
     """Number of observations supporting a variant (or the reference allele '_')."""
-    if has_indel(cov, mut.pos, mut.op):
-        return cov._indels[mut.pos, mut.op][1]
-    if in_pileup(cov, mut.pos, mut.op):
-        return len(cov._coverage[mut.pos][mut.op])
-    return 0
+    return (cov._indels[mut.pos, mut.op][1] if has_indel(cov, mut.pos, mut.op)
+            else (len(cov._coverage[mut.pos][mut.op]) if in_pileup(cov, mut.pos, mut.op) else 0))
 
 
 def depth(cov, pos):
     """Number of non-insertion observations at a position."""
-    if pos not in cov._coverage:
-        return 0
-    return sum(len(cov._coverage[pos][o]) for o in cov._coverage[pos] if o[:3] != "ins")
+    return (sum(len(cov._coverage[pos][o]) for o in cov._coverage[pos] if o[:3] != "ins")
+            if pos in cov._coverage else 0)
 
 
 def depth_at(cov, mut):
     """Depth used for a variant: for table indels, off + on target reads."""
-    if has_indel(cov, mut.pos, mut.op):
-        return cov._indels[mut.pos, mut.op][0] + cov._indels[mut.pos, mut.op][1]
-    return depth(cov, mut.pos)
+    return (cov._indels[mut.pos, mut.op][0] + cov._indels[mut.pos, mut.op][1] if has_indel(cov, mut.pos, mut.op)
+            else depth(cov, mut.pos))
 
 
 def hq(profile, ob):
